@@ -486,10 +486,10 @@ end Blocks
 section TwoLocus
 
 /-- class of a lineage: carries both loci / only locus 1 / only locus 2 -/
-inductive Cls | L | U1 | U2
+inductive LCls | L | U1 | U2
   deriving DecidableEq
 
-instance : Fintype Cls := ⟨{Cls.L, Cls.U1, Cls.U2}, fun x => by cases x <;> decide⟩
+instance : Fintype LCls := ⟨{LCls.L, LCls.U1, LCls.U2}, fun x => by cases x <;> decide⟩
 
 /-- the six kinds of pair mergers -/
 inductive PairK | LL | LU1 | LU2 | U1U1 | U2U2 | U1U2
@@ -499,15 +499,15 @@ instance : Fintype PairK :=
   ⟨{PairK.LL, PairK.LU1, PairK.LU2, PairK.U1U1, PairK.U2U2, PairK.U1U2},
     fun x => by cases x <;> decide⟩
 
-open Cls in
+open LCls in
 /-- classes of the two merging lineages, and class of the merged lineage -/
-def PairK.fst : PairK → Cls
+def PairK.fst : PairK → LCls
   | .LL => L | .LU1 => L | .LU2 => L | .U1U1 => U1 | .U2U2 => U2 | .U1U2 => U1
-open Cls in
-def PairK.snd : PairK → Cls
+open LCls in
+def PairK.snd : PairK → LCls
   | .LL => L | .LU1 => U1 | .LU2 => U2 | .U1U1 => U1 | .U2U2 => U2 | .U1U2 => U2
-open Cls in
-def PairK.out : PairK → Cls
+open LCls in
+def PairK.out : PairK → LCls
   | .LL => L | .LU1 => L | .LU2 => L | .U1U1 => U1 | .U2U2 => U2 | .U1U2 => L
 
 /-- unconditional version of `QC_single` -/
@@ -522,25 +522,25 @@ variable {D : ℕ} {K : Type*} [Field K]
 /-- event kinds: `inl (d, d', cl)` = a lineage of class `cl` moves from deme `d` to `d'`;
 `inr (inl d)` = recombination of a linked lineage in deme `d`;
 `inr (inr (d, p))` = pair merger of kind `p` in deme `d`. -/
-abbrev AKind (D : ℕ) := (Fin D × Fin D × Cls) ⊕ (Fin D ⊕ (Fin D × PairK))
+abbrev AKind (D : ℕ) := (Fin D × Fin D × LCls) ⊕ (Fin D ⊕ (Fin D × PairK))
 
 def argRate (r : K) (ts : Fin D → K) (mig : Fin D → Fin D → K) :
-    AKind D → (Fin D × Cls → ℕ) → (Fin D × Cls → ℕ) → K
+    AKind D → (Fin D × LCls → ℕ) → (Fin D × LCls → ℕ) → K
   | .inl (d, d', cl), _, κ => if κ = e1 (d, cl) ∧ d ≠ d' then mig d d' else 0
-  | .inr (.inl d), _, κ => if κ = e1 (d, Cls.L) then r else 0
+  | .inr (.inl d), _, κ => if κ = e1 (d, LCls.L) then r else 0
   | .inr (.inr (d, p)), _, κ => if κ = e1 (d, p.fst) + e1 (d, p.snd) then 1 / ts d else 0
 
-def argRes : AKind D → (Fin D × Cls → ℕ) → (Fin D × Cls → ℕ)
+def argRes : AKind D → (Fin D × LCls → ℕ) → (Fin D × LCls → ℕ)
   | .inl (_, d', cl), _ => e1 (d', cl)
-  | .inr (.inl d), _ => e1 (d, Cls.U1) + e1 (d, Cls.U2)
+  | .inr (.inl d), _ => e1 (d, LCls.U1) + e1 (d, LCls.U2)
   | .inr (.inr (d, p)), _ => e1 (d, p.out)
 
 theorem univ_PairK : (univ : Finset PairK)
     = {PairK.LL, PairK.LU1, PairK.LU2, PairK.U1U1, PairK.U2U2, PairK.U1U2} := rfl
 
-open Cls in
+open LCls in
 theorem arg_closed_form (r : K) (ts : Fin D → K) (mig : Fin D → Fin D → K)
-    (g : (Fin D × Cls → ℕ) → K) (c : Fin D × Cls → ℕ) :
+    (g : (Fin D × LCls → ℕ) → K) (c : Fin D × LCls → ℕ) :
     QCs (argRate r ts mig) argRes g c
       = ∑ d, ∑ d', ∑ cl, (if d ≠ d' then (c (d, cl) : K) * mig d d' *
             (g (c - e1 (d, cl) + e1 (d', cl)) - g c) else 0)
@@ -583,7 +583,7 @@ theorem arg_closed_form (r : K) (ts : Fin D → K) (mig : Fin D → Fin D → K)
       simp [wt_pair, PairK.fst, PairK.snd, PairK.out, add_assoc]
 
 theorem arg_lumping (r : K) (ts : Fin D → K) (mig : Fin D → Fin D → K)
-    (g : (Fin D × Cls → ℕ) → K) (x : List (Fin D × Cls)) :
+    (g : (Fin D × LCls → ℕ) → K) (x : List (Fin D × LCls)) :
     QLs (argRate r ts mig) argRes g x = QCs (argRate r ts mig) argRes g (cntF x) :=
   lumpings _ _ _ _
 
